@@ -83,3 +83,35 @@ Lemma mixed_level_under_prefix f g :
   match f with FNot _ | FQ _ _ _ => True | _ => False end ->
   match g with FBin _ _ _ => un_paren f g = true | _ => True end.
 Proof. intros Hf. destruct g as [?|?|c ? ?|? ? ?]; try exact I. destruct f; try tauto; destruct c; reflexivity. Qed.
+
+(* the two operator tables agree: the associativity the formatter assumes for each infix operator is the
+   one registered in the PrattParser, tighter in the formatter = higher binding power in the parser, and
+   the prefix operators bind tightest.  (With mandatory parentheses around -> <- <-> the associativity of
+   that level is never exercised by printed text, but a disagreement would be a latent defect.) *)
+Definition conn_kind (c : bconn) : fkind :=
+  match c with CAnd => KAnd | COr => KOr | CImp => KImp | CRimp => KRimp | CIff => KIff end.
+Definition binop_kind (o : binop) : ikind := match o with BAdd => KAdd | BSub => KSub | BMul => KMul end.
+Lemma tables_agree_formula :
+  (forall c, match formula_in_bp c with Some (_, a) => fmt_formula_assoc (conn_kind c) = Some a | None => False end) /\
+  (forall c1 c2, match formula_in_bp c1, formula_in_bp c2 with
+                 | Some (p1, _), Some (p2, _) =>
+                     (fmt_formula_prec (conn_kind c1) < fmt_formula_prec (conn_kind c2) <-> p2 < p1)
+                 | _, _ => False end) /\
+  (forall c, match formula_in_bp c with Some (p, _) => p < fpn /\ 1 <= p | None => False end) /\
+  fmt_formula_assoc KNot = Some ALeft /\ fmt_formula_assoc KQuant = Some ALeft.
+Proof.
+  repeat split; try (intros c; destruct c; vm_compute; try reflexivity; lia);
+    try (intros c1 c2; destruct c1, c2; vm_compute; lia); try (intros c1 c2 H; destruct c1, c2; vm_compute in *; lia).
+Qed.
+Lemma tables_agree_term :
+  (forall o, match iterm_in_bp o with Some (_, a) => fmt_iterm_assoc (binop_kind o) = Some a | None => False end) /\
+  (forall o1 o2, match iterm_in_bp o1, iterm_in_bp o2 with
+                 | Some (p1, _), Some (p2, _) =>
+                     (fmt_iterm_prec (binop_kind o1) < fmt_iterm_prec (binop_kind o2) <-> p2 < p1)
+                 | _, _ => False end) /\
+  (forall o, match iterm_in_bp o with Some (p, _) => p < ipn /\ 1 <= p | None => False end) /\
+  fmt_iterm_assoc KNeg = Some ALeft.
+Proof.
+  repeat split; try (intros c; destruct c; vm_compute; try reflexivity; lia);
+    try (intros c1 c2; destruct c1, c2; vm_compute; lia); try (intros c1 c2 H; destruct c1, c2; vm_compute in *; lia).
+Qed.
